@@ -179,6 +179,7 @@ def run_library(case):
         if l in ('dense-path', 'sparse-path'):
             labels.append('{}-{}'.format(kind, l))
             labels.append('{}-{}'.format(l, 'planted' if pbits else 'unplanted'))
+            labels.append('{}-{}-{}'.format(kind, l, 'planted' if pbits else 'unplanted'))
     return Outcome(labels=labels, nontrivial=nontrivial)
 
 
@@ -289,8 +290,13 @@ def strat_grid(draw):
 # ---------------------------------------------------------------------------
 # larger n, m within +-2 of the maximum
 
-def _large_ks(n):
-    return [0, 1, 2, 3, 4, n - 1, n]
+def _large_ks(kind, n):
+    """Widths tried for n >= 7; sizes are bounded by construction (<= 8000
+    clauses for k-CNF, <= 25000 clauses in the encoding of the k-XOR)."""
+    ks = [0, 1, 2, 3, 4, n]
+    if kind == 'xor' or n <= 10:
+        ks.append(n - 1)
+    return ks
 
 
 def enum_large(tier):
@@ -300,7 +306,7 @@ def enum_large(tier):
         ns, cfgs, nseeds = list(range(7, 13)), [0, 1, 3, 4, 5], 4
     for kind in KINDS:
         for n in ns:
-            for k in _large_ks(n):
+            for k in _large_ks(kind, n):
                 for cfg in cfgs:
                     for s in range(nseeds):
                         rng = random.Random(zlib.crc32("L{}:{}:{}:{}".format(n, k, cfg, s).encode()))
@@ -310,13 +316,23 @@ def enum_large(tier):
                         for m in range(max(0, mx - 2), mx + 3):
                             yield {'kind': kind, 'k': k, 'n': n, 'm': m, 'planted': planted,
                                    'rseed': rng.getrandbits(30), 'pc': 'list', 'ac': 'list'}
+    # Without planted assignments the sparse sampler gives up only when collecting
+    # all the clauses takes more than 10*max draws: probability about max/e^10 at
+    # m = max.  Enough generator states at the largest points to see it happen.
+    reps = {'quick': 1, 'thorough': 4}[tier]
+    for kind, n, k, count in (('cnf', 12, 4, 24 * reps), ('xor', 12, 3, 360 * reps)):
+        mx = _maxfor(kind, k, n, ())
+        rng = random.Random(zlib.crc32("B{}:{}:{}".format(kind, n, k).encode()))
+        for s in range(count):
+            yield {'kind': kind, 'k': k, 'n': n, 'm': mx, 'planted': [],
+                   'rseed': rng.getrandbits(30), 'pc': 'list', 'ac': 'list'}
 
 
 @st.composite
 def strat_large(draw):
     kind = draw(st.sampled_from(KINDS))
     n = draw(st.integers(7, 12))
-    k = draw(st.sampled_from(_large_ks(n)))
+    k = draw(st.sampled_from(_large_ks(kind, n)))
     planted = draw(_planted_strategy(n))
     pbits = tuple(rr.assignment_bits(n, a) for a in planted)
     mx = _maxfor(kind, k, n, pbits)
@@ -361,12 +377,12 @@ def run_seed(case):
 @st.composite
 def strat_seed(draw):
     kind = draw(st.sampled_from(KINDS))
-    n = draw(st.integers(0, 9))
-    k = draw(st.integers(0, min(4, n + 1)))
+    n = draw(st.sampled_from([0, 1, 2, 3, 4, 5, 5, 6, 6, 7, 8, 9]))
+    k = draw(st.sampled_from([0, 1, 1, 2, 2, 3, 3, 4]))
     planted = draw(_planted_strategy(n, 2))
     pbits = tuple(rr.assignment_bits(n, a) for a in planted)
     mx = _maxfor(kind, k, n, pbits)
-    m = draw(st.one_of(st.integers(0, min(mx + 1, 12)), st.integers(0, mx + 1)))
+    m = draw(st.sampled_from([0, 1, 2, 3, 5, 8, mx // 2, max(0, mx - 1), mx, mx + 1]))
     seed = draw(st.one_of(st.sampled_from([0, 1, -1]), st.integers(0, 2 ** 40),
                           st.text(alphabet='abcxyz019 ', max_size=6)))
     return {'kind': kind, 'k': k, 'n': n, 'm': m, 'planted': planted, 'seed': seed,
@@ -559,7 +575,9 @@ SUBCHECKS = [
              quick=60, thorough=3000,
              rule="n 7..12, k in {0..4, n-1, n}, m in max-2..max+2, planted sets of 0..3 assignments; enumerated slice (quick: n in 7,10,12; thorough: n 7..12, 5 planted configurations, 4 generator states) plus Hypothesis; same oracle as grid; non-trivial: k>=1, m>=1",
              required_labels=['cnf', 'xor', 'm=max', 'm=max+1-rejected', 'dense-path', 'sparse-path',
-                              'dense-path-unplanted', 'sparse-path-unplanted', 'dense-path-planted',
+                              'cnf-dense-path-unplanted', 'xor-dense-path-unplanted',
+                              'cnf-sparse-path-unplanted', 'xor-sparse-path-unplanted',
+                              'cnf-dense-path-planted', 'xor-dense-path-planted',
                               'planted>=2', 'k=n', 'k=0']),
     SubCheck('seed_param', run_seed, strategy=strat_seed, quick=2500, thorough=80000,
              rule="library call with seed= (ints including 0 and negative, strings) executed twice from two different states of the global generator; oracle: shape as in grid and identical clause lists; non-trivial: k>=1, m>=1 and at least two available clauses (so that a forgotten reseed can show)",
